@@ -361,6 +361,7 @@ def run(chk, ctx) -> None:
     _none_default(chk, ctx)
     from .cover import flag_verifiers
     flag_verifiers(chk, ctx)
+    _phase_check_first(chk, ctx)
 
 
 PLAYER_QUEUES = ('actor_indices', 'showdown_indices')
@@ -397,6 +398,29 @@ def _applies_to(chk, ctx, disc) -> None:
         chk.ob('C08.applies_to', f'State.{op}', bad is None, ctx.loc(of, bad[0].node) if bad else of.loc,
                'the player an explicit index refers to is the player the operation is applied to', got=bad[1] if bad else 'verified player throughout')
     chk.floor('C08.applies_to', 7)
+
+
+def _phase_check_first(chk, ctx, rule='C08.phase_check') -> None:
+    """``verify_X`` starts with ``self._verify_X()`` whenever that phase verifier exists: whether the operation is due at all is
+    decided before any argument is looked at (and the query, which wraps the verifier, agrees with it)"""
+    ms = ctx.state.methods
+    n = 0
+    for name, fi in sorted(ms.items()):
+        if not name.startswith('verify_') or ('_' + name) not in ms:
+            continue
+        n += 1
+        first = next((st for st in fi.body if not (isinstance(st, ast.Expr) and isinstance(st.value, ast.Constant))), None)
+        ok = isinstance(first, ast.Expr) and isinstance(first.value, ast.Call) and self_attr(first.value.func) == '_' + name and not first.value.args
+        if not ok:
+            # reached on every path before anything is returned or refused for another reason
+            ok = True
+            for p in ctx.paths(fi):
+                calls = [c for c in p.calls() if c.value[0] == 'self']
+                if not calls or calls[0].value[1] != '_' + name:
+                    if p.returned or (p.raised and p.conds()):
+                        ok = False
+        chk.ob(rule, f'State.{name}', ok, fi.loc, f'the verifier first asks its phase verifier _{name}() (is the operation due at all?)')
+    chk.floor(rule, 9)
 
 
 def _none_default(chk, ctx) -> None:
